@@ -162,6 +162,46 @@ class Program:
         if not files:
             raise AnalysisError(f"no python files under {pkg_root}")
         h = hashlib.sha256()
+        # pre-scan: functions that (on every path) return one of their own parameters unchanged, keyed by name; a name defined
+        # twice with different behaviour is dropped.  The normaliser uses it to separate `y = f(x)` into `f(x); y = x`.
+        returns_arg: dict[str, int | None] = {}
+        refs_by_file: dict[str, set[str]] = {}
+        for p in files:
+            try:
+                raw = ast.parse(p.read_text(), filename=str(p))
+            except (SyntaxError, UnicodeDecodeError):
+                continue
+            refs_by_file[str(p)] = {x.attr for x in ast.walk(raw) if isinstance(x, ast.Attribute)} | {x.id for x in ast.walk(raw) if isinstance(x, ast.Name)} | {a.name for x in ast.walk(raw) if isinstance(x, ast.ImportFrom) for a in x.names}
+            owners = {}
+            for par in ast.walk(raw):
+                if isinstance(par, ast.ClassDef):
+                    for b in par.body:
+                        if isinstance(b, ast.FunctionDef):
+                            owners[id(b)] = par.name
+            for fn in [n for n in ast.walk(raw) if isinstance(n, ast.FunctionDef)]:
+                params = [a.arg for a in fn.args.posonlyargs + fn.args.args]
+                decos = {norm(d) for d in fn.decorator_list}
+                cls_name = owners.get(id(fn))
+                skip = 0 if ("staticmethod" in decos or cls_name is None) else 1
+                # callable as `Class.f(args)` (static / class methods) or `f(args)` (module functions)
+                if cls_name is not None and not ({"staticmethod", "classmethod"} & decos):
+                    continue
+                key = f"{cls_name}.{fn.name}" if cls_name is not None else fn.name
+                rets = [r for r in ast.walk(fn) if isinstance(r, ast.Return)]
+                inner_nodes = {id(x) for g in ast.walk(fn) if isinstance(g, (ast.FunctionDef, ast.Lambda)) and g is not fn for x in ast.walk(g)}
+                own = [r for r in rets if id(r) not in inner_nodes]
+                idx = None
+                if own and all(isinstance(r.value, ast.Name) and r.value.id in params[skip:] for r in own) and len({r.value.id for r in own}) == 1:
+                    nm = own[0].value.id
+                    stored = {x.id for x in ast.walk(fn) if isinstance(x, ast.Name) and isinstance(x.ctx, ast.Store)}
+                    falls_off = not isinstance(fn.body[-1], (ast.Return, ast.Raise))
+                    if nm not in stored and not falls_off and not any(isinstance(x, (ast.Yield, ast.YieldFrom)) for x in ast.walk(fn)):
+                        idx = params.index(nm) - skip
+                if key in returns_arg and returns_arg[key] != idx:
+                    returns_arg[key] = None
+                elif key not in returns_arg:
+                    returns_arg[key] = idx
+        self.returns_arg = {k: v for k, v in returns_arg.items() if v is not None}
         for p in files:
             rel = p.relative_to(self.repo_root)
             parts = list(rel.with_suffix("").parts)
@@ -177,7 +217,7 @@ class Program:
                 from .normalize import normalize_module
 
                 try:
-                    tree = normalize_module(tree)
+                    tree = normalize_module(tree, returns_arg=self.returns_arg, foreign_refs=set().union(*[v for k, v in refs_by_file.items() if k != str(p)]) if refs_by_file else set())
                 except RecursionError as e:  # pragma: no cover
                     raise AnalysisError(f"normalisation of {rel} failed: {e}") from e
             _number_nodes(tree)
